@@ -6,7 +6,7 @@
   in keys; absent pair = 0 : 0; `IsCW v w` = `w` is a candidate and `d w o > d o w` for every other
   candidate `o`.
 -/
-import VotelibProofs.Lemmas.WidestPaths
+import VotelibProofs.Lemmas.BenhamSmith
 import VotelibModel.CondorcetRanked
 namespace VL.C05
 open VL VL.Condorcet
@@ -89,7 +89,7 @@ theorem cw_tideman {p : Profile} (hwf : WF (rankedToCondorcet p)) {w : Cand} (hw
     unfold tidemanTier
     rw [hne]
     have hs : smithSchwartz (rankedToCondorcet p) true = [w] := smithSet_of_cw hwf hw
-    simp only [Bool.false_eq_true, if_false, hs]
+    simp only [Bool.false_eq_true, if_false, hs, List.isEmpty_cons]
   rw [tideman_of_not_lone (not_lone_of_cw hwf hw)]
   unfold tidemanCore
   rw [htier]
@@ -240,29 +240,50 @@ theorem isPath_iff {pairs : List Pair} {source sink : Cand} (hne : source ≠ si
   ⟨isPath_sound, isPath_complete hne⟩
 
 /-- **Tideman alternative's answer lies in the Smith set** of the pairwise counts of the profile, whenever it
-    answers: after the first restriction to the Smith set every remaining candidate is a member of it.  (A lone
-    candidate has no pairwise contest at all — the pairwise dictionary is empty — and is elected as such.) -/
-theorem tideman_in_smith {p : Profile} {r : List Slot} (h : tideman true p = .ok r) :
-    (∃ c, allRankedCandidates p = [c] ∧ r = [Slot.cand c]) ∨
-    ∃ c, r = [Slot.cand c] ∧ c ∈ smithSet (rankedToCondorcet p) := by
+    answers and there is a pairwise contest at all (the Smith set is not empty): after the first restriction to the
+    Smith set every remaining candidate is a member of it. -/
+theorem tideman_in_smith {p : Profile} (hne : smithSet (rankedToCondorcet p) ≠ []) {r : List Slot}
+    (h : tideman true p = .ok r) : ∃ c, r = [Slot.cand c] ∧ c ∈ smithSet (rankedToCondorcet p) := by
   by_cases hl : ∃ c, allRankedCandidates p = [c]
   · obtain ⟨c, hc⟩ := hl
-    left
     rw [tideman_lone hc] at h
     simp only [Except.ok.injEq] at h
-    exact ⟨c, hc, h.symm⟩
-  · right
-    have hl' : ∀ c, allRankedCandidates p ≠ [c] := fun c hc => hl ⟨c, hc⟩
-    rw [tideman_of_not_lone hl'] at h
-    unfold tidemanCore at h
+    refine ⟨c, h.symm, ?_⟩
+    obtain ⟨x, hx⟩ := List.exists_mem_of_ne_nil _ hne
+    have h1 := candidates_rankedToCondorcet_sub p (smithSchwartz_sub_candidates hx)
+    rw [hc] at h1
+    simp only [List.mem_singleton] at h1
+    rw [← h1]; exact hx
+  have hl' : ∀ c, allRankedCandidates p ≠ [c] := fun c hc => hl ⟨c, hc⟩
+  rw [tideman_of_not_lone hl'] at h
+  unfold tidemanCore at h
+  split at h
+  · simp at h
+  · rename_i c htier
     split at h
+    · simp only [Except.ok.injEq] at h
+      exact ⟨c, h.symm, tidemanTier_in_smith p hne _ p (Or.inl rfl) c htier⟩
     · simp at h
-    · rename_i c htier
-      split at h
-      · simp only [Except.ok.injEq] at h
-        exact ⟨c, h.symm, tidemanTier_in_smith p _ p (Or.inl rfl) c htier⟩
-      · simp at h
-    · simp at h
+  · simp at h
+
+/-- **Benham's answer lies in the Smith set** of the pairwise counts of the profile, whenever it elects a
+    candidate: every round eliminates exactly one candidate (an elimination tie is refused), restricting the
+    ballots to the remaining candidates preserves their pairwise counts (`subset_preserves_pairwise`), and the
+    last member of the Smith set left in a round would be that round's Condorcet winner.  `ProfileOK p`: no ballot
+    names a candidate twice, weights are non-negative; `hall`: every ranked candidate takes part in some pairwise
+    contest. -/
+theorem benham_in_smith {p : Profile} (hp : ProfileOK p)
+    (hall : ∀ c ∈ allRankedCandidates p, c ∈ candidates (rankedToCondorcet p)) {c : Cand}
+    (h : benham p = .ok [Slot.cand c]) : c ∈ smithSet (rankedToCondorcet p) := benham_elects_smith hp hall h
+
+/-- **Restricting a profile to a set of candidates preserves the pairwise counts among them**
+    (`SubsettedVotes(RankedSubsetter)` followed by `RankedToCondorcetVotes`, unranked candidates at the bottom). -/
+theorem subset_preserves_pairwise (p : Profile) {T : List Cand} {x y : Cand} (hx : x ∈ T) (hy : y ∈ T) :
+    pget (rankedToCondorcet (subsetProfile p T)) (x, y) = pget (rankedToCondorcet p) (x, y) :=
+  pget_rtc_subsetProfile p (List.contains_iff_mem.2 hx) (List.contains_iff_mem.2 hy)
+
+/-- the pairwise dictionary derived from a well-formed profile is well-formed -/
+theorem wf_of_profileOK {p : Profile} (hp : ProfileOK p) : WF (rankedToCondorcet p) := wf_rtc hp
 
 /-! ### nobody who took part in a pairwise contest is dropped -/
 
@@ -405,24 +426,37 @@ theorem minimax_never_loser_fixed :
     minimax .winningVotes [((0, 2), 3), ((1, 2), 3), ((2, 1), 1)] 1 = [Slot.tie [0, 1]] ∧
     minimaxPresent .winningVotes [((0, 2), 3), ((1, 2), 3), ((2, 1), 1)] 1 = [Slot.cand 0] := by decide +kernel
 
-/-- `benham_in_smith` is FALSE of the current code: a first-preference tie for the last place makes
-    `eliminate_one` return `Tie` objects, which the subsetter matches with no candidate, so BOTH tied
-    candidates — here the whole Smith set `{1, 2}` — are eliminated at once and an outsider is elected. -/
+/-- (since the elimination-tie fix) a first-preference tie for the last place is refused with the declared
+    NotImplementedError instead of eliminating every tied candidate at once: on this profile the whole Smith set
+    `{1, 2}` used to be eliminated and the outsider `3` elected -/
 def exBenhamTie : Profile :=
   [([.one 2, .one 1, .one 3], 1), ([.one 2, .one 1], 1), ([.one 1, .one 2, .one 3], 2),
    ([.one 0, .one 2, .one 1, .one 3], 3), ([.one 3, .one 1, .one 2, .one 0], 3)]
-theorem benham_in_smith_witness :
-    benham exBenhamTie = .ok [Slot.cand 3] ∧ WF (rankedToCondorcet exBenhamTie) ∧
+theorem benham_tie_refused_not_outsider :
+    benham exBenhamTie = .error .notImplemented ∧ WF (rankedToCondorcet exBenhamTie) ∧
       3 ∉ smithSet (rankedToCondorcet exBenhamTie) ∧ 1 ∈ smithSet (rankedToCondorcet exBenhamTie) := by
   decide +kernel
 
-/-- the hybrids crash on a first-preference elimination tie instead of reporting it or refusing -/
-theorem benham_elimination_tie_witness : benham exCycleProfile = .error (.other "IndexError") := by decide +kernel
-theorem tideman_elimination_tie_witness :
-    tideman true exCycleProfile = .error (.other "IndexError") := by decide +kernel
-theorem tideman_last_tie_witness :
-    tideman true [([.one 0, .one 1], 1), ([.one 1, .one 0], 1)] = .error (.other "KeyError") ∧
+/-- the hybrids refuse a first-preference elimination tie (IndexError / KeyError before the fix); two level last
+    candidates are reported as a tie by Benham and refused by Tideman alternative; a profile without any pairwise
+    contest (every ballot one shared rank) is a reported tie / a refusal as well -/
+theorem benham_elimination_tie_refused : benham exCycleProfile = .error .notImplemented := by decide +kernel
+theorem tideman_elimination_tie_refused :
+    tideman true exCycleProfile = .error .notImplemented ∧ tideman false exCycleProfile = .error .notImplemented := by
+  decide +kernel
+theorem tideman_last_tie_refused :
+    tideman true [([.one 0, .one 1], 1), ([.one 1, .one 0], 1)] = .error .notImplemented ∧
     benham [([.one 0, .one 1], 1), ([.one 1, .one 0], 1)] = .ok [Slot.tie [0, 1]] := by decide +kernel
+theorem no_contest_refused :
+    tideman true [([.shared [0, 1, 2]], 3)] = .error .notImplemented ∧
+    tideman true [([.shared [0, 1]], 3)] = .error .notImplemented ∧
+    benham [([.shared [0, 1, 2]], 3)] = .error .notImplemented ∧
+    benham [([.shared [0, 1]], 3)] = .ok [Slot.tie [0, 1]] := by decide +kernel
+
+/-- `eliminate_one` never hands a tie on together with other places: it answers with the places that stay, all of
+    them candidates, or with the single place left (possibly a tie), or refuses -/
+theorem eliminateOne_no_mixed_tie {p : Profile} {rem : List Slot} (h : eliminateOne p = .ok rem) :
+    rem.length ≤ 1 ∨ rem.any isTie = false := (eliminateOne_spec h).2
 
 /-! ### non-vacuity -/
 
@@ -442,6 +476,8 @@ def exProfile : Profile := [([.one 0, .one 1, .one 2], 4), ([.one 1, .one 0, .on
 example : WF (rankedToCondorcet exProfile) := by decide +kernel
 example : IsCW (rankedToCondorcet exProfile) 1 := by decide +kernel
 example : benham exProfile = .ok [Slot.cand 1] := by decide +kernel
+example : ProfileOK exProfile ∧ ∀ c ∈ allRankedCandidates exProfile, c ∈ candidates (rankedToCondorcet exProfile) := by
+  decide +kernel
 example : tideman true exProfile = .ok [Slot.cand 1] := by decide +kernel
 
 end VL.C05
